@@ -265,6 +265,15 @@ func SchemaFixedCases() []Case {
 		d.Comp("schemas", "Base", Obj(nil, M{"id": Prim("integer", "int64")}))
 		d.Comp("schemas", "Root", M{"required": L{"name"}, "allOf": L{Ref("schemas", "Base"), Obj(nil, M{"name": Prim("string", ""), "n": Prim("integer", "int32")})}})
 	})
+	mk("schema-fixed-inline-map-value-object-nullable-property", func(d *Doc) {
+		// the value schema of additionalProperties written in place, with a
+		// required, an optional and an optional nullable property
+		note := Prim("string", "")
+		note["nullable"] = true
+		root := Obj([]string{"id"}, M{"id": Prim("integer", "int64")})
+		root["additionalProperties"] = Obj([]string{"count"}, M{"count": Prim("integer", "int64"), "tag": Prim("string", ""), "note": note})
+		d.Comp("schemas", "Root", root)
+	})
 	return out
 }
 
